@@ -223,6 +223,21 @@ func Gen(t *rapid.T, o GenOpts) Prog {
 		}
 		ops = append(ops, fg("proposal", rapid.SampledFrom([]string{"B", "C", "auto"}).Draw(t, "ls_v"), 0, 0)) // in case the next leader is Byzantine
 		ops = append(ops, Op{K: "flush", Types: "R", From: all &^ bitA})                                       // A's prepared round-change is withheld
+		if rapid.IntRange(0, 2).Draw(t, "ls_commits_first") == 0 {
+			// variant: A does get the new proposal (justified without its round-change), the others prepare and commit the
+			// new value, and A receives the commit quorum BEFORE any prepare of the new round - while still holding its
+			// older lock
+			ops = append(ops, Op{K: "flush", Types: "P"})
+			for i := 0; i < nb; i++ {
+				ops = append(ops, fg("prepare", "last", i, 0))
+			}
+			ops = append(ops, Op{K: "flush", Types: "p", From: all &^ bitA, To: all &^ bitA})
+			for i := 0; i < nb; i++ {
+				ops = append(ops, fg("commit", "last", i, 0))
+			}
+			ops = append(ops, Op{K: "flush", Types: "C", From: all &^ bitA, To: bitA})
+			return append(ops, Op{K: "flush", Types: "C"})
+		}
 		ops = append(ops, Op{K: "flush", Types: "P", To: all &^ bitA})
 		for i := 0; i < nb; i++ {
 			ops = append(ops, fg("prepare", "last", i, 0))
